@@ -713,9 +713,10 @@ def r4_8(repo: Repo) -> RuleResult:
                 t = st.targets[0]
                 if isinstance(t, ast.Name):
                     env[t.id] = sym.substitute(st.value, env)
-                    if norm(st.value) == "coo.ind[0]":
+                    full = norm(env[t.id])
+                    if full == "coo.ind[0]":
                         upper = ev(st.value)
-                    if "coo.min[0]" in norm(st.value):
+                    if lower is None and full.replace(" ", "") in ("np.abs(coo.min[0])", "abs(coo.min[0])", "numpy.abs(coo.min[0])"):
                         lower = ev(ast.Name(id=t.id, ctx=ast.Load()))
                 elif norm(t) == "coo.ind[0]":
                     stored = ev(st.value)
